@@ -294,7 +294,7 @@ func decTrial(c *core.Ctx, id string, i int, shapes []fc.Cfg) {
 	if s.hasExtra {
 		stop++
 	}
-	res := fc.Run(fc.Trial{Cfg: s.cfg, Stream: s.wire, Plan: plan, StopAfter: stop, ReadBuf: pick(rng, []int{1, 7, 512, 4096})})
+	res := fc.Run(fc.Trial{Cfg: s.cfg, Stream: s.wire, Plan: plan, StopAfter: stop, ReadBuf: pick(rng, []int{1, 7, 512, 4096, -1})})
 	c.Count("streams", 1)
 	c.Count("stream_bytes", int64(len(s.wire)))
 	c.Count("transport_read_steps", int64(len(plan.Cuts)+1))
@@ -660,6 +660,10 @@ func roundTrip(c *core.Ctx, id string, r int) {
 	k := 1 + rng.Intn(5)
 	var s stream
 	maxLen := 0
+	// the payloads of one sequence are records laid out back to back in one application buffer; the []byte carriers below hand
+	// the codec sub-slices of it (spare capacity behind every payload: the next record), the other carriers get copies
+	var ps [][]byte
+	var arena []byte
 	for f := 0; f < k; f++ {
 		n := pick(rng, fc.SmallLens)
 		switch rng.Intn(6) {
@@ -679,8 +683,23 @@ func roundTrip(c *core.Ctx, id string, r int) {
 			n = 4097
 		}
 		p := payloadFor(rng, e, n)
+		ps = append(ps, p)
+		arena = append(arena, p...)
+	}
+	arena = append(arena, make([]byte, 16)...)
+	off := 0
+	for f := 0; f < k; f++ {
+		p, n := ps[f], len(ps[f])
 		carrier := fc.Carriers[rng.Intn(len(fc.Carriers))]
-		em, exc, _ := rig.Write(fc.Carry(carrier, p, rng))
+		var msg interface{}
+		if carrier == "[]byte" || rng.Intn(6) == 0 {
+			carrier, msg = "[]byte(sub-slice of a shared buffer)", arena[off:off+n]
+			c.Count("round_trip_shared_buffer_writes", 1)
+		} else {
+			msg = fc.Carry(carrier, p, rng)
+		}
+		off += n
+		em, exc, _ := rig.Write(msg)
 		if len(em) != 1 || len(exc) != 0 || em[0].Err != "" {
 			rig.Close()
 			c.Violation("C04:round-trip-encode-failed:"+e.Kind, id, fmt.Sprintf("%s refused or mangled an admitted %d-byte payload (%s): emissions=%d exceptions=%v", e, n, carrier, len(em), fc.ErrStrings(exc)),
@@ -723,7 +742,7 @@ func roundTrip(c *core.Ctx, id string, r int) {
 	if rng.Intn(8) == 0 {
 		plan.Term = fc.TermDataEOF
 	}
-	res := fc.Run(fc.Trial{Cfg: s.cfg, Stream: s.wire, Plan: plan, StopAfter: k, ReadBuf: pick(rng, []int{1, 7, 512, 4096})})
+	res := fc.Run(fc.Trial{Cfg: s.cfg, Stream: s.wire, Plan: plan, StopAfter: k, ReadBuf: pick(rng, []int{1, 7, 512, 4096, -1})})
 	c.Count("round_trips", 1)
 	c.Count("round_trip_frames", int64(k))
 	c.Sig("rt", e.Shape(), fc.LenClass(maxLen), plan.Kind, plan.Term, s.maxMode)
